@@ -179,7 +179,8 @@ def verdict(prop, value):
     return isinstance(value, _L)
   if prop == "LinePadding":
     if isinstance(value, _L):
-      return True if value.units is _U.c else None
+      # ebutts:linePadding is expressed in c (IMSC 1.1); rh / rw are the model's computed forms; px, em and % are no line padding
+      return True if value.units is _U.c else None if value.units in (_U.rh, _U.rw) else False
     return False
   if prop == "LineHeight":
     return value is sp.SpecialValues.normal or isinstance(value, _L)
